@@ -72,7 +72,7 @@ def _case(draw, tier):
         if chance(draw, 1, 4):
             c[2].reverse()
     elif klass == "both":
-        shape = draw(st.sampled_from(["leaf", "or", "and", "tree", "not"] + (["or_two_free"] * 2 if nF == 2 else [])))
+        shape = draw(st.sampled_from(["leaf", "or", "and", "tree", "not"] + (["or_two_free"] * 2 + ["or_u_vs_two_free"] * 2 if nF == 2 else [])))
         x = draw(st.sampled_from(frees))
         if shape == "leaf":
             c = leaf(draw, ctx, [x, u])
@@ -88,6 +88,16 @@ def _case(draw, tier):
             # a disjunction whose operands are about DIFFERENT free variables (one of which may then be projected away)
             y = 1 - x
             c = ["or", "nary", [leaf(draw, ctx, draw(st.sampled_from([[x], [x, u]]))), leaf(draw, ctx, [y, u])]]
+            if draw(st.booleans()):
+                c[2].reverse()
+        elif shape == "or_u_vs_two_free":
+            # one operand says nothing about the free variables (it is about the universal one only, or a constant), the other
+            # is about BOTH of them: where the first holds, every combination of the free variables' values is a candidate
+            y = 1 - x
+            first = draw(st.sampled_from([leaf(draw, ctx, [u]), leaf(draw, ctx, [u]), ["const", True]]))
+            second = draw(st.sampled_from([leaf(draw, ctx, [x, y]),
+                                           ["and", "nary", [leaf(draw, ctx, [x, u]), leaf(draw, ctx, draw(st.sampled_from([[y], [y, u]])))]]]))
+            c = ["or", "nary", [first, second]]
             if draw(st.booleans()):
                 c[2].reverse()
         elif shape == "not":
